@@ -243,7 +243,7 @@ reg(
 # ---------------------------------------------------------------------------------------------------------------
 # C20: one monitor binary per feature set of anstyle-parse
 
-FEATURE_SETS = [("none", ""), ("core", "core"), ("core+utf8", "core,utf8"), ("default(utf8)", "utf8")]
+FEATURE_SETS = [("none", ""), ("core", "core"), ("core+utf8", "core,utf8"), ("default(utf8)", "utf8"), ("defaults+core", "defaults,core")]
 
 
 _VFEAT_BINS = {}
@@ -275,7 +275,7 @@ def _c08_feature_lane(res, tier):
 def build_vfeat(name, feats):
     import os
     import shutil
-    # the four builds share one output path (target/release/vfeat): build and copy each of them once per process
+    # the builds share one output path (target/release/vfeat): build and copy each of them once per process
     if name in _VFEAT_BINS:
         return _VFEAT_BINS[name]
     td = common.cargo_build(["vfeat"], "release", extra_args=["--no-default-features", "--features", feats] if feats else ["--no-default-features"])
@@ -310,7 +310,7 @@ def run_c20(res, tier):
         res.lanes.append(lane)
         res.evaluations += d["evaluations"]
         if name == FEATURE_SETS[0][0]:
-            res.distinct += d["distinct_nontrivial"]  # the four builds see the same inputs
+            res.distinct += d["distinct_nontrivial"]  # the builds see the same inputs
         for s in d.get("samples", []):
             if name == FEATURE_SETS[0][0] and len(res.samples) < 8:
                 res.samples.append(s)
@@ -348,8 +348,8 @@ reg(
     "cases = 7-bit byte streams (seeded grammar streams folded to 7 bits, plus all 101x21 oversize OSC shapes) fed to a monitor binary "
     "built once per feature set {none, core, core+utf8, utf8(default)}; each build compares its callbacks event-for-event with RefVt "
     "(OSC payload cut at 1024 bytes for the fixed-buffer builds), the fixed-buffer builds additionally with the unlimited reference on "
-    "every stream whose OSC payloads fit the buffer, and the event-log hash over those streams must be identical across the four builds; non-trivial = stream contains an escape sequence; distinct by 64-bit hash, "
-    "counted once (the four builds see the same inputs)",
+    "every stream whose OSC payloads fit the buffer, and the event-log hash over those streams must be identical across the five builds (none, core, core+utf8, default, defaults+core); non-trivial = stream contains an escape sequence; distinct by 64-bit hash, "
+    "counted once (the builds see the same inputs)",
     [A_REFVT, "inputs are 7-bit only: without the utf8 feature bytes >= 0x80 in ground are documented as unsupported"],
     {"run": run_c20, "replay": replay_c20, "replay_case": replay_case_c20},
 )
